@@ -4,7 +4,7 @@ import json
 
 NA = {
  'C07': "pure functions of their argument tuple: functional/ and the decision code of builtin/ contain no map iteration, clock read (outside fn:time:now, which no law mentions), I/O, callback or shared state, so there is no schedule, fault or history to simulate; the one order-related clause (reducers independent of presentation order) is exercised in situ by C02/C05 where presentation order is a simulated schedule",
- 'C08': "pure functions of one to three terms; the only nondeterminism on the path (ast.Map/Struct ranging over their argument before a stable sort) matters only for hash-equal keys; nothing to schedule or inject, input generation alone would be property-based testing, not simulation",
+ 'C08': "pure functions of one to three terms; the only nondeterminism on the path (ast.Map/Struct ranging over their argument before a stable sort) mattered only for hash-equal keys and is gone since the repair D67 (found through C19's deterministic-bytes clause); nothing to schedule or inject, input generation alone would be property-based testing, not simulation",
  'C09': "print-then-parse is a pure function of the term; the only stateful thing on the path (pooled lexer/parser) is simulated under C10/C18, the round-trip law itself has no schedule, clock or fault in it",
  'C12': "SetConforms/UpperBound/LowerBound/HasType on closed type expressions are pure; the map ranges in symbols/ iterate type-variable contexts which are empty for closed expressions",
 }
@@ -22,19 +22,19 @@ CHECKS = {
    text="seeded insertion/coalesce/query/merge histories with the interval limit as an injected abort, compared pointwise with a reference interval-set model after every step",
    tech="deterministic simulation: seeded histories vs. reference interval-set model, limit as injected fault"),
  'C18': dict(cat='exploration', ref='DESIGN.md 4 (C18)',
-   text="every interleaving decision of 2-4 client tasks is drawn by a seeded cooperative scheduler at lock, pool, store-statement and function-entry yield points; histories are checked for linearizability with porcupine, lock discipline and deadlock are checked during the run; parallel evaluations are compared with solo runs",
+   text="every interleaving decision of 2-4 client tasks is drawn by a seeded cooperative scheduler at lock, pool, store-statement and function-entry yield points; histories are checked for linearizability with porcupine, lock discipline (per base store the intersection of adequately held locks over all accesses, also for a second concurrent store used as merge source while others operate on it) and deadlock are checked during the run; parallel evaluations are compared with solo runs",
    tech="deterministic simulation: seeded cooperative scheduler + porcupine linearizability + lockset + solo-vs-parallel equality"),
  'C01': dict(cat='exploration', ref='DESIGN.md 4 (C01)',
    text="generated safe, stratified programs are evaluated by the real engine under owned map order, a drawn store kind and flags, and compared in both directions with the model of an independent reference evaluator; deciding power comes mostly from the seeded workload and the reference model, the simulation adds exact replay and active search over iteration orders and store kinds",
    tech="deterministic simulation: seeded programs under simulated map-order schedules vs. independent reference evaluator"),
  'C02': dict(cat='exploration', ref='DESIGN.md 4 (C02)',
-   text="as C01 with the generator biased to do-transform rules; the reference folds every aggregating rule over the distinct solutions of its own body",
+   text="as C01 with the generator biased to do-transform rules; the reference folds every aggregating rule over the distinct solutions of its own body; a template with group keys of different kinds that print alike; fixed probes for bodies with temporal literals and wildcards",
    tech="deterministic simulation: seeded aggregating programs under simulated map-order schedules vs. reference group-and-fold"),
  'C03': dict(cat='exploration', ref='DESIGN.md 4 (C03)',
    text="seeded dependency graphs (all 4^9 three-predicate labellings in the thorough tier) are stratified under owned map order; the result is judged by the validity conditions of the statement and an own negative-cycle test",
    tech="deterministic simulation: seeded/enumerated dependency graphs under simulated map-order schedules vs. own stratification conditions"),
  'C04': dict(cat='exploration', ref='DESIGN.md 4 (C04)',
-   text="generated programs are perturbed into unsafe or oddly ordered clauses; an independent binding closure says which must be rejected, accepted programs must evaluate without panic/error to the reference semantics of the clauses as written",
+   text="generated programs are perturbed into unsafe or oddly ordered clauses; an independent binding closure says which must be rejected, accepted programs must evaluate without panic/error to the reference semantics of the clauses as written; a do-transform template draws the order of reducer and row-wise statements and their references",
    tech="deterministic simulation: seeded clause perturbations vs. reference safety judgement and reference semantics"),
  'C10': dict(cat='fault_enumeration', ref='DESIGN.md 4 (C10)',
    text="stored artefacts that were valid when written are truncated, corrupted, tampered with or delivered by a failing/chunking reader at enumerated offsets and pushed through parser, analysis, evaluation under a fact limit and the simplecolumn readers; no panic, no hang (step budget), no unbounded allocation (worker under ulimit -v)",
@@ -46,7 +46,7 @@ CHECKS = {
    text="seeded coalesced temporal fact sets and operator/annotation rules on a discrete timeline, evaluation time explicit or read from the simulated clock (with jumps), compared with pointwise reference semantics",
    tech="deterministic simulation: simulated clock + seeded temporal programs vs. pointwise reference semantics"),
  'C15': dict(cat='exploration', ref='DESIGN.md 4 (C15)',
-   text="every fact of an evaluated generated program is explained (post-hoc or from a recording) under several owned map orders; an independent proof checker validates every node, completeness, acyclicity and content-addressed IDs; recorder on/off must not change the result",
+   text="every fact of an evaluated generated program is explained (post-hoc or from a recording) under several owned map orders; an independent proof checker validates every node (built-in premises are decided under the reported bindings), completeness, acyclicity and content-addressed IDs; recorder on/off must not change the result",
    tech="deterministic simulation: proof search under simulated map-order schedules vs. independent proof checker"),
  'C16': dict(cat='exploration', ref='DESIGN.md 4 (C16)',
    text="seeded command histories with failing commands and pops against the interpreter on a per-run temp directory; after every command the state must answer like a fresh interpreter replaying only the live fragments (refinement against replay of the committed log)",
